@@ -6,7 +6,7 @@ import lib
 from props import enginecorr
 
 MODEL_DEPS = ['CheckLib']
-KERNELS = ('validate_graph', 'count_entries', 'hash_graph', 'find_dependencies', 'detect_cycles', 'CacheLayer', 'TreeNode', 'Graph')
+KERNELS = ('validate_graph', 'count_entries', 'hash_graph', 'find_dependencies', 'detect_cycles', 'CacheLayer', 'TreeNode', 'Graph', 'execute')
 TRUSTED = ['Coq 8.16.1 kernel; vm_compute in the Example',
            'tools/translate.py: the traversal shapes (is there a membership guard on a visited/memo container that the node is added to)',
            'Python-level call counts inside the connectome package (sys.setprofile) at sizes k and 2k: a measurement, not a proof',
